@@ -97,15 +97,16 @@ def depth(graph, top):
 
 
 def shape_digest(graph, top):
-    """canonical digest of the structure, ids abstracted away"""
+    """canonical digest of the structure, ids abstracted away (children enter by their digests, so deep models stay cheap)"""
     memo = {}
     for nid in topo(graph, top):
         n = graph[nid]
         if n["leaf"]:
-            memo[nid] = ("L",) + tuple(n["b"])
+            t = ("L",) + tuple(n["b"])
         else:
-            memo[nid] = ("C", n["sign"], n["value"], tuple(n["b"]), tuple(sorted(map(repr, (memo[c] for c in n["ch"])))))
-    return hashlib.sha256(repr(memo[top]).encode()).hexdigest()[:16]
+            t = ("C", n["sign"], n["value"], tuple(n["b"]), tuple(sorted(memo[c] for c in n["ch"])))
+        memo[nid] = hashlib.sha256(repr(t).encode()).hexdigest()[:16]
+    return memo[top]
 
 
 # ----------------------------------------------------------------------------- assignments
